@@ -40,7 +40,7 @@ RULE = ("each run assembles a server (bare protocol + scripted handler/middlewar
         "handler outcomes: every status class, str/bytes bodies, ill-formed responses, exceptions "
         "with CR/LF/non-ASCII/5 kB text, sync or delayed. distinct = distinct time-stripped event "
         "signatures; non-trivial = a fault, a cut or a non-default handler outcome occurred")
-PROBES = ["timeout_path", "peer_fin_before_response", "peer_rst_mid_response", "slow_reader",
+PROBES = ["ipv6_peers", "real_certificate_auth_component", "timeout_path", "peer_fin_before_response", "peer_rst_mid_response", "slow_reader",
           "handler_raised", "handler_illformed", "middleware_denied", "oversize_line",
           "start_server_root", "start_server_locations", "listing_served", "titan_upload_path",
           "delayed_handler_gt_timeout", "default_404_reached",
@@ -358,6 +358,9 @@ def run_one(ch):
     conns = []
     nconn = 1 + ch.choose("nconn", 3, [5, 3, 2])
     state = {}
+    if ch.chance("ipv6_peers", 0.25):
+        state["ipv6_peers"] = True
+        res.stats["ipv6_peers"] += 1
 
     if assembly == 0:
         mode = sw.MODES[ch.choose("mode", 3, [6, 2, 3])]
@@ -366,7 +369,8 @@ def run_one(ch):
         if uplan["delay"] is None:
             uplan["delay"] = 0.0
         upload_enabled = ch.chance("upload_enabled", 0.8)
-        mwkind = ch.choose("mw", 5, [6, 1, 2, 1, 1])   # none, allow, deny, raise, slow+allow
+        # none, allow, deny, raise, slow+allow, (5 = late completion), real CertificateAuth
+        mwkind = ch.choose("mw", 7, [6, 1, 2, 1, 1, 0, 1])
         # "late completion" scenario: an incomplete Titan upload runs into the request
         # timeout while a slow chain is still undecided; the chain then finishes
         # (raise / deny / allow) while the timeout response is still being drained
@@ -405,6 +409,14 @@ def run_one(ch):
                         raise RuntimeError("mw\r\nboom")
                     return True, None
             mw = MiddlewareChain([Scripted()])
+            if mwkind == 6:
+                # the library's own component: nobody here presents a client certificate
+                from nauyaca.server.middleware import (CertificateAuth, CertificateAuthConfig,
+                                                       CertificateAuthPathRule)
+                mw = MiddlewareChain([CertificateAuth(CertificateAuthConfig(
+                    path_rules=[CertificateAuthPathRule(prefix="/", require_cert=True)]))])
+                deny_resp = "60 Client certificate required\r\n"
+                res.stats["real_certificate_auth_component"] += 1
         paths = None
         tree = None
     else:
@@ -500,7 +512,10 @@ def run_one(ch):
                           read_interval=0.05 if cap_s2c > 64 else 0.001)
                 if state.get("late") and c["i"] == 0:
                     kw = dict(read_rate=16, read_interval=0.7)
-            ep = raw_connect(net, HOST, 1965, src=("10.0.0.%d" % (c["i"] + 2), 50000 + c["i"]),
+            src = ("10.0.0.%d" % (c["i"] + 2), 50000 + c["i"])
+            if state.get("ipv6_peers"):
+                src = ("2001:db8::%x" % (c["i"] + 2), 50000 + c["i"], 0, 0)
+            ep = raw_connect(net, HOST, 1965, src=src,
                              c2s=pol, s2c=WholePolicy(0.001), cap_s2c=cap_s2c, tag=f"k{c['i']}")
             c["peer"] = RawPeer(net, ep, c["script"], tls_ctx=sw.peer_tls_ctx(mode),
                                 name=f"cli{c['i']}", **kw)
@@ -717,7 +732,7 @@ def _expected(c, assembly, spy, upspy, hplan, uplan, mwkind, deny_resp, tree, st
                 return ("exact", sw.expected_wire(uplan["response"]))
             return None
         mine = [e for e in spy.log if e[1] and e[1].startswith(f"gemini://{HOST}/c{tag}")]
-        if mwkind == 2 and rinfo["kind"] in (0, 9):
+        if mwkind in (2, 6) and rinfo["kind"] in (0, 9):
             return ("exact", deny_resp.encode())
         if len(mine) != 1:
             return None
